@@ -24,6 +24,9 @@ type resolvedTarget struct {
 	lo, hi  Term
 	whole   bool // whole object
 	elemT   types.Type
+	// whole-heap targets: every heap of a package's types, or one named heap family
+	pkgHeaps string
+	heapName string
 }
 
 // resolveTargets evaluates modifies targets in the scope's state.
@@ -107,6 +110,16 @@ func (fr *Frame) resolveTarget(sc *Scope, mt ModTarget) []resolvedTarget {
 			return out
 		}
 	case *ECall:
+		if id, ok := e.Fun.(*EIdent); ok && id.Name == "pkgheaps" && len(e.Args) == 1 {
+			// pkgheaps(p): any field / element heap of a type declared in package p
+			if a, ok := e.Args[0].(*EIdent); ok {
+				return []resolvedTarget{{text: mt.Text, pkgHeaps: a.Name}}
+			}
+		}
+		if id, ok := e.Fun.(*EIdent); ok && id.Name == "bytes" && len(e.Args) == 0 {
+			// bytes(): the byte memory (restrict with an ensures such as rootBytesKept())
+			return []resolvedTarget{{text: mt.Text, heapName: elemHeap(types.Typ[types.Uint8], "")}}
+		}
 		if id, ok := e.Fun.(*EIdent); ok && id.Name == "obj" && len(e.Args) == 1 {
 			// obj(s): the whole backing object of s
 			b := fr.evalExpr(sc, e.Args[0])
@@ -183,6 +196,25 @@ func (fr *Frame) havocTargets(st *State, tgs []resolvedTarget) {
 		switch {
 		case t.all:
 			fr.havocAll(st)
+		case t.pkgHeaps != "":
+			fr.top.nepoch++
+			if st.pfx == nil {
+				st.pfx = map[string]int{}
+			}
+			st.pfx[t.pkgHeaps] = fr.top.nepoch
+			for hn := range st.heaps {
+				if heapOfPkg(hn, t.pkgHeaps) {
+					delete(st.heaps, hn)
+				}
+			}
+		case t.heapName != "":
+			srt := fr.top.heapSorts[t.heapName]
+			if srt == "" {
+				srt = byteHeapSort
+				fr.top.heapSorts[t.heapName] = srt
+			}
+			st.heaps[t.heapName] = fr.ctx.Fresh("Hh:"+t.heapName, srt)
+			fr.reassertConstStrings(st)
 		case t.isField:
 			for k, hn := range t.heaps {
 				h := fr.heap(st, hn, ArrSort(SInt, t.sorts[k]))
@@ -284,6 +316,15 @@ func (fr *Frame) frameObligations(st *State, preHeaps map[string]Term, alloc0 Te
 	}
 	sort.Strings(names)
 	for _, hn := range names {
+		skip := false
+		for _, t := range tgs {
+			if (t.pkgHeaps != "" && heapOfPkg(hn, t.pkgHeaps)) || (t.heapName != "" && t.heapName == hn) {
+				skip = true
+			}
+		}
+		if skip {
+			continue
+		}
 		pre := preHeaps[hn]
 		srt := fr.top.heapSorts[hn]
 		now := fr.heap(st, hn, srt)
@@ -436,4 +477,14 @@ func (fr *Frame) heapNamesOfElems(sliceT types.Type, set map[string]bool) {
 			fr.top.heapSorts[hn] = ArrSort(SInt, ArrSort(SInt, c.Sort))
 		}
 	}
+}
+
+// heapOfPkg: the heap holds fields or elements of a type declared in package pkg (by name).
+func heapOfPkg(hn, pkg string) bool {
+	for _, p := range []string{"F:", "M:", "M:*", "M:[]", "M:[]*", "B:", "B:*"} {
+		if strings.HasPrefix(hn, p+pkg+".") {
+			return true
+		}
+	}
+	return false
 }
